@@ -123,17 +123,17 @@ float computeRangeSize_float_MSST19(float* oriData, size_t size, float* valueRan
     size_t i = 0;
     float min = oriData[0];
     float max = min;
-    *nearZero = min;
+    *nearZero = 0; //the smallest non-zero magnitude (stays 0 only if every value is 0)
 
-    for(i=1;i<size;i++)
+    for(i=0;i<size;i++) //from 0: the first element has a sign and a magnitude too
     {
         float data = oriData[i];
         if(data <0){
             signs[i] = 1;
             *positive = false;
         }
-        if(oriData[i] != 0 && fabsf(oriData[i]) < fabsf(*nearZero)){
-            *nearZero = oriData[i];
+        if(oriData[i] != 0 && (*nearZero == 0 || fabsf(oriData[i]) < *nearZero)){
+            *nearZero = fabsf(oriData[i]); //a magnitude: the zero threshold derived from it must be positive
         }
         if(min>data)
             min = data;
@@ -170,17 +170,17 @@ double computeRangeSize_double_MSST19(double* oriData, size_t size, double* valu
     size_t i = 0;
     double min = oriData[0];
     double max = min;
-    *nearZero = min;
+    *nearZero = 0; //the smallest non-zero magnitude (stays 0 only if every value is 0)
 
-    for(i=1;i<size;i++)
+    for(i=0;i<size;i++) //from 0: the first element has a sign and a magnitude too
     {
         double data = oriData[i];
         if(data <0){
             signs[i] = 1;
             *positive = false;
         }
-        if(oriData[i] != 0 && fabs(oriData[i]) < fabs(*nearZero)){
-            *nearZero = oriData[i];
+        if(oriData[i] != 0 && (*nearZero == 0 || fabs(oriData[i]) < *nearZero)){
+            *nearZero = fabs(oriData[i]); //a magnitude: the zero threshold derived from it must be positive
         }
         if(min>data)
             min = data;
